@@ -100,7 +100,24 @@ namespace wc
         size_t maxResponse  = 0;   // 0 = default
         int moveStream      = 0;   // 0: used in place; 1: move-constructed before the first op; 2: after the first op
         bool useMimeArg     = false;
+        long fileSize       = -1;  // >= 0: the response is a file of that size, answered with Http::serveFile
+        int fileExt         = 0;   // index into file_exts()
+        std::vector<lp::Answer> plan; // answers of the socket to the successive write calls of the response (default: all accepted)
     };
+    struct FileExt
+    {
+        const char* ext;
+        const char* mime; // "" = no Content-Type is derived from the name
+    };
+    inline const std::vector<FileExt>& file_exts()
+    {
+        static std::vector<FileExt> v = { { ".txt", "text/plain" }, { ".png", "image/png" }, { ".bin", "application/octet-stream" }, { ".unknownext", "" }, { "", "" } };
+        return v;
+    }
+    inline std::string file_path(const RspSpec& s)
+    {
+        return "/var/tmp/c05-file-" + std::to_string(getpid()) + "-" + std::to_string(s.fileSize) + "-" + std::to_string(s.salt) + file_exts()[s.fileExt].ext;
+    }
 
     struct RspResult
     {
@@ -131,7 +148,14 @@ namespace wc
                     rsp_headers()[h].add(w.headers());
                 for (int c : spec->cookies)
                     w.cookies().add(rsp_cookies()[c].make());
-                if (!spec->stream)
+                if (spec->fileSize >= 0)
+                {
+                    res->written = payload((size_t)spec->fileSize, spec->salt);
+                    auto p       = Http::serveFile(w, file_path(*spec));
+                    RspResult* r = res;
+                    p.then([r](ssize_t n) { r->promise = 1; r->fulfilled = n; }, [r](std::exception_ptr) { r->promise = 2; });
+                }
+                else if (!spec->stream)
                 {
                     std::string body = payload(spec->bodyLen, spec->salt);
                     res->written     = body;
@@ -207,20 +231,54 @@ namespace wc
         handler->res  = &res;
         if (spec.maxResponse)
             handler->setMaxResponseSize(spec.maxResponse);
-        lp::Loop loop(handler);
-        int cfd = loop.connect_peer();
-        loop.settle();
-        lp::client_send(cfd, "GET / HTTP/1.1\r\nConnection: keep-alive\r\n\r\n");
-        for (int round = 0; round < 200; ++round)
+        if (spec.fileSize >= 0)
         {
-            int n = loop.settle(8);
-            if (steps)
-                *steps += n;
-            std::string got = lp::client_recv_all(cfd);
-            res.wire += got;
-            if (n == 0 && got.empty())
-                break;
+            std::string path = file_path(spec), data = payload((size_t)spec.fileSize, spec.salt);
+            FILE* f = fopen(path.c_str(), "w");
+            if (!f || fwrite(data.data(), 1, data.size(), f) != data.size())
+            {
+                perror("c05 file");
+                abort();
+            }
+            fclose(f);
         }
+        {
+            lp::Loop loop(handler);
+            std::shared_ptr<Tcp::Peer> peer;
+            int cfd = loop.connect_peer(&peer);
+            loop.settle();
+            const int sfd = peer->fd();
+            lp::World& W  = lp::W();
+            for (auto& a : spec.plan)
+                W.plan[sfd].push_back(a);
+            lp::client_send(cfd, "GET / HTTP/1.1\r\nConnection: keep-alive\r\n\r\n");
+            int idle = 0;
+            for (int round = 0; round < 400; ++round)
+            {
+                bool progressed = loop.step();
+                if (steps)
+                    *steps += 1;
+                bool held = W.held.count(sfd) && W.held[sfd];
+                if (held)
+                {
+                    if (W.release_in[sfd] <= 0)
+                        loop.release(sfd);
+                    else
+                        --W.release_in[sfd];
+                }
+                std::string got = lp::client_recv_all(cfd);
+                res.wire += got;
+                if (!progressed && got.empty() && !held)
+                {
+                    if (++idle >= 3)
+                        break;
+                }
+                else
+                    idle = 0;
+            }
+        }
+        if (spec.fileSize >= 0)
+            unlink(file_path(spec).c_str());
         return res;
     }
 
